@@ -15,6 +15,9 @@ func zzStubFastReduction(v, nHi, nLo uint64) uint64 {
 var zzPs = []uint8{0, 1, 7, 8, 9, 19, 31, 32}
 
 func zzP() uint8 {
+	if op := vParam("onlyp", -1); op >= 0 {
+		return uint8(op)
+	}
 	if vParam("allp", 0) == 1 {
 		return uint8(vCase("p", 0, 32))
 	}
